@@ -114,9 +114,21 @@ def timeouts():
 
 
 @st.composite
-def pattern_list(draw, text_mode, exact, min_text=0, max_len=4):
+def pattern_list(draw, text_mode, exact, min_text=0, max_len=4, stream=None):
     n = draw(st.integers(1, max_len))
-    pt = exact_text(text_mode) if exact else regex_text(text_mode)
+    base = exact_text(text_mode) if exact else regex_text(text_mode)
+    if stream:
+        # construction over rejection: a good share of the patterns are pieces of the stream itself (1-5
+        # characters, so that occurrences exist, overlap each other and straddle read boundaries)
+        @st.composite
+        def from_stream(d):
+            i = d(st.integers(0, len(stream) - 1))
+            j = min(len(stream), i + d(st.integers(1, 5)))
+            piece = stream[i:j]
+            return piece if exact else re.escape(piece)
+        pt = st.one_of(base, from_stream(), from_stream())
+    else:
+        pt = base
     out = []
     for _ in range(n):
         k = draw(st.integers(0, 9))
@@ -144,16 +156,16 @@ def pattern_list(draw, text_mode, exact, min_text=0, max_len=4):
 
 
 @st.composite
-def call(draw, text_mode, ops):
+def call(draw, text_mode, ops, stream=None):
     op = draw(st.sampled_from(ops))
     c = {'op': op}
     if op in ('expect', 'expect_list', 'expect_c'):
-        c['pats'] = draw(pattern_list(text_mode, False))
+        c['pats'] = draw(pattern_list(text_mode, False, stream=stream))
         c['w'] = draw(windows())
         c['timeout'] = draw(timeouts())
         c['single'] = (len(c['pats']) == 1 and draw(st.booleans()))
     elif op == 'expect_exact':
-        c['pats'] = draw(pattern_list(text_mode, True))
+        c['pats'] = draw(pattern_list(text_mode, True, stream=stream))
         c['w'] = draw(windows())
         c['timeout'] = draw(timeouts())
         c['single'] = (len(c['pats']) == 1 and draw(st.booleans()))
@@ -189,7 +201,7 @@ def cases(draw, ops=None, max_calls=6, modes=(False, True), max_syms=14, allow_m
                 marks[str(i)] = 't'
             elif k == 1:
                 marks[str(i)] = 'tf'
-    calls = draw(st.lists(call_strategy(text_mode) if call_strategy else call(text_mode, ops or ALL_OPS),
+    calls = draw(st.lists(call_strategy(text_mode, s) if call_strategy else call(text_mode, ops or ALL_OPS, stream=s),
                           min_size=1, max_size=max_calls))
     return {
         'enc': enc,
